@@ -35,7 +35,8 @@ CXX_TARGETS = ["hgv_tslmap"]
 RULE = ("streams tslmap*: growth / tick histories replayed into a REAL graph replay(dynamic TSL<TS<Int>>) [+ a second "
         "multiplexed dynamic list of another length | a broadcast TS<Int>] -> map_(f) -> record (tsl_map_node.cpp), f from: "
         "stateless +1, running sum, value+1000*index, self-scheduling echo (1,2,3 steps or a value-dependent delay), "
-        "emits-only-even, throws-on-negative (map_ over a list has no error output: the run ends), broadcast add, two "
+        "emits-only-even, throws-on-negative (map_ over a list has no error output: the run ends), broadcast add, "
+        "broadcast add that emits only while the broadcast is MODIFIED for the child (sampled at the child's start), two "
         "lists of differing lengths; with and without the index argument `ndx`. Histories: growth by 1 and by jumps (the "
         "elements in between exist and stay unset), ticks of old indices in the growth cycle, many indices per cycle, "
         "first set of a long-unset index, idle cycles for pending wake-ups, broadcast ticks with and without element ticks "
@@ -66,7 +67,7 @@ LEVEL_NOTE = ("Dynamic-list map_: source re-pointing, pause / resume and the for
               "map_ over a list has no error output (exception_time_series on it is rejected at wiring time), a failing "
               "child ends the run - 'failures are isolated' is therefore not a statement about this node.")
 
-FNS = ["inc", "acc", "acc", "addidx", "echo1", "echo2", "echo3", "echov", "echov", "even", "neg", "addb", "addb", "pair", "pair"]
+FNS = ["inc", "acc", "acc", "addidx", "echo1", "echo2", "echo3", "echov", "echov", "even", "neg", "addb", "addb", "bmod", "pair", "pair"]
 BOUNDS = (1, 2, 4, 8, 16, 32)
 
 
@@ -121,7 +122,7 @@ class _Lst:
 def gen_case(rng, idx, tier, fn=None):
     fn = fn or rng.choice(FNS)
     ndx = 1 if fn == "addidx" else int(rng.random() < 0.65)
-    two, bc = fn == "pair", fn == "addb"
+    two, bc = fn == "pair", fn in ("addb", "bmod")
     a = _Lst(rng, fn, "set")
     b = _Lst(rng, fn, "bset")
     top = rng.choice([3, 5, 9, 17, 18] if tier == "quick" else [5, 9, 17, 33, 34])
@@ -338,6 +339,13 @@ class _Ref:
             if (at or i["zTick"]) and a is not None and z is not None:
                 return a + z
             return None
+        if fn == "bmod":
+            # the broadcast is MODIFIED for this instance when it ticks - or in the instance's first cycle: a function
+            # started at that moment reads the current value of its argument as its first tick
+            z = i["z"]
+            if (i["zTick"] or self.born == cyc) and a is not None and z is not None:
+                return a + z
+            return None
         if fn == "pair":
             b = i["b"]
             if (at or i["bTick"]) and a is not None and b is not None:
@@ -433,7 +441,7 @@ def _spec(case, out):
                 bad.append("[C10-tsl-failure] after a child exception the run must have ended; got %r" % o)
             continue
         # ---- the ops of this cycle ---------------------------------------------------------------
-        two, bc = fn == "pair", fn == "addb"
+        two, bc = fn == "pair", fn in ("addb", "bmod")
         sets_a, sets_b, ztick = {}, {}, False
         i = 1
         while i < len(w):
